@@ -12,8 +12,8 @@ PID = "C02"
 def msg(rng, want=None):
     # failcall: a value whose Serialize impl refuses (custom serde error); its error offset is computed by
     # the harness without the serializer under test
-    kind = rng.choices(["call", "ping", "reply", "error", "busy", "badcall", "badreply", "failcall"],
-                       [30, 8, 25, 12, 5, 10, 10, 7])[0]
+    kind = rng.choices(["call", "ping", "reply", "error", "busy", "badcall", "badreply", "failcall", "fcall"],
+                       [30, 8, 25, 12, 5, 10, 10, 7, 8])[0]
     size = want if want is not None else rng.choice(
         [0, 1, 5, rng.randrange(0, 120), rng.randrange(100, 300), rng.randrange(200, 700)])
     return {"kind": kind, "size": size, "seed": rng.randrange(0, 1000), "plain": rng.random() < 0.5}
@@ -38,14 +38,16 @@ def gen_cases(ck, limit, step):
         ops = []
         for _ in range(n):
             x = rng.random()
-            if x < 0.2:
+            if x < 0.05:
+                ops.append(["rejoin"])       # split + join: must leave the write queue alone
+            elif x < 0.2:
                 ops.append(["flush"])
             else:
                 m = msg(rng)
                 # calls also enter the queue through the chain API (a chain started and abandoned
                 # = enqueue; a one-call chain sent = send), which shares the write queue
-                viachain = m["kind"] in ("call", "ping", "badcall", "failcall") and rng.random() < 0.25
-                if x < 0.6 and m["kind"] in ("call", "ping", "badcall", "failcall"):
+                viachain = m["kind"] in ("call", "ping", "badcall", "failcall", "fcall") and rng.random() < 0.25
+                if x < 0.6 and m["kind"] in ("call", "ping", "badcall", "failcall", "fcall"):
                     ops.append(["cenq" if viachain else "enq", m])
                 else:
                     ops.append(["csend" if viachain else "send", m])
@@ -56,16 +58,16 @@ def gen_cases(ck, limit, step):
     top = 2 * step + 90
     for sz in range(0, top, 1 if not quick else 1):
         second = msg(rng)
-        kind2 = "enq" if second["kind"] in ("call", "ping", "badcall", "failcall") and rng.random() < 0.5 else "send"
-        if second["kind"] in ("call", "ping", "badcall", "failcall") and rng.random() < 0.3:
+        kind2 = "enq" if second["kind"] in ("call", "ping", "badcall", "failcall", "fcall") and rng.random() < 0.5 else "send"
+        if second["kind"] in ("call", "ping", "badcall", "failcall", "fcall") and rng.random() < 0.3:
             kind2 = "c" + kind2
         add([["enq", {"kind": "call", "size": sz, "seed": sz, "plain": True}], [kind2, second], ["flush"]],
             [], "offset_sweep")
     # (b2) the same after the buffer was grown by an earlier large message (free space up to 700)
     for sz in range(0, 3 * step - 60, 1 if not quick else 2):
         second = msg(rng)
-        kind2 = "enq" if second["kind"] in ("call", "ping", "badcall", "failcall") and rng.random() < 0.5 else "send"
-        if second["kind"] in ("call", "ping", "badcall", "failcall") and rng.random() < 0.3:
+        kind2 = "enq" if second["kind"] in ("call", "ping", "badcall", "failcall", "fcall") and rng.random() < 0.5 else "send"
+        if second["kind"] in ("call", "ping", "badcall", "failcall", "fcall") and rng.random() < 0.3:
             kind2 = "c" + kind2
         add([["send", {"kind": "reply", "size": 2 * step + 100, "seed": 1, "plain": True}],
              ["enq", {"kind": "call", "size": sz, "seed": sz, "plain": True}], [kind2, second], ["flush"]],
